@@ -114,6 +114,7 @@ typedef struct Plan {
 	int64_t ntasks, preempt_mean, pct_d;
 	/* byz */
 	int64_t victim;
+	int64_t early_close;   /* the closing side calls tls_shutdown / close without reading the last inbound round */
 	int64_t tz;            /* process time zone during the run: 0 unset, 1 UTC, 2 CST-8, 3 PST8, 4 <+0530>-5:30 */
 	int64_t extra_roots;   /* unrelated additional trust anchors configured next to the real one */
 	int nrounds; Round rounds[MAX_ROUNDS];
